@@ -72,6 +72,7 @@ type Summary struct {
 	LastSeed   int64          `json:"last_seed"`
 	RaceBuild  bool           `json:"race_build"`
 	Seqs       []string       `json:"seqs"` // distinct (path, class, class) prefixes of emission plans
+	SeqSpace   int            `json:"seq_space"` // size of that space: paths x (1 + classes + classes^2)
 }
 
 func traceLine(e vnet.Ev) string {
@@ -392,7 +393,7 @@ func TestWorker(t *testing.T) {
 		sum.Shapes = append(sum.Shapes, h)
 	}
 	sort.Slice(sum.Shapes, func(i, j int) bool { return sum.Shapes[i] < sum.Shapes[j] })
-	if prop == "C08" {
+	if prop == "C08" || prop == "C10" || prop == "C11" || prop == "C09" {
 		for h := range inter {
 			sum.Interleave = append(sum.Interleave, h)
 		}
@@ -402,6 +403,7 @@ func TestWorker(t *testing.T) {
 		sum.Seqs = append(sum.Seqs, k)
 	}
 	sort.Strings(sum.Seqs)
+	sum.SeqSpace = 3 * (1 + gen.NumClasses03 + gen.NumClasses03*gen.NumClasses03)
 	emit(sum)
 }
 
